@@ -77,18 +77,23 @@ Section All.
 
   Hypothesis Hpad : vr_year_pad vr = true.
 
-  (* which kinds the theorem covers; the side condition of a hash dictionary is on its name list *)
+  (* the classes (by id) whose constructor is covered *)
+  Variable P : ustring -> bool.
+
+  (* which kinds the theorem covers; the side condition of a hash dictionary is on its name list,
+     that of an embedded object / a list of objects on the embedded class *)
   Fixpoint kind_proved (k : pkind) : bool :=
     match k with
     | KObservable _ | KStixObject _ | KExtensions _ => false
     | KHashes names vv => hashes_kind_ok vr names vv
     | KList k' => kind_proved k'
+    | KEmbedded cid | KListOf cid => P cid
     | _ => true
     end.
 
   (* the nested constructor on plain input: an object, free of reserved keywords, idempotent on its own output *)
   Definition rc_idem : Prop :=
-    forall cid a i d o, plain_dict d = true -> rc cid a i d = Ok o ->
+    forall cid a i d o, P cid = true -> plain_dict d = true -> rc cid a i d = Ok o ->
       encode false o = JObj (omem o) /\ reserved_kw (omem o) = Ok tt /\ rc cid a i (omem o) = Ok o.
 
   Hypothesis Hrc : rc_idem.
@@ -108,11 +113,12 @@ Section All.
   Qed.
 
   Lemma listof_items_idem : forall cid a i l res h,
+    P cid = true ->
     forallb plain_json l = true ->
     listof_items rc cid a i l = Ok (res, h) ->
     listof_items rc cid a i (map (encode false) res) = Ok (res, h).
   Proof.
-    induction l as [| x r IH]; intros res h Hg H; cbn [listof_items] in H.
+    induction l as [| x r IH]; intros res h HP Hg H; cbn [listof_items] in H.
     - inv_ok H. reflexivity.
     - destruct x; try discriminate. unfold bind in H.
       cbn [forallb] in Hg. apply andb_true_iff in Hg. destruct Hg as [Hx Hr].
@@ -120,9 +126,9 @@ Section All.
       destruct (rc cid a i m) as [o | |] eqn:Eo; try discriminate.
       destruct (listof_items rc cid a i r) as [[res' h'] | |] eqn:Er; try discriminate.
       inv_ok H. cbn [fst snd map]. rewrite plain_json_obj in Hx.
-      destruct (Hrc cid a i m o Hx Eo) as [E1 [E2 E3]].
+      destruct (Hrc cid a i m o HP Hx Eo) as [E1 [E2 E3]].
       rewrite E1. cbn [listof_items]. unfold bind. rewrite E2, E3.
-      rewrite (IH res' h' Hr eq_refl). reflexivity.
+      rewrite (IH res' h' HP Hr eq_refl). reflexivity.
   Qed.
 
   Lemma finish_list_encode : forall a res h p hc, finish_list a (res, h) = Ok (p, hc) -> p = PArr res /\ hc = h.
@@ -165,7 +171,7 @@ Section All.
       destruct (reserved_kw m) as [[] | |] eqn:Ek; try discriminate.
       destruct (rc cls allow false m) as [o | |] eqn:Eo; try discriminate.
       rewrite plain_json_obj in Hv.
-      destruct (Hrc cls allow false m o Hv Eo) as [E1 [E2 E3]].
+      destruct (Hrc cls allow false m o Hk Hv Eo) as [E1 [E2 E3]].
       destruct (negb allow && pval_has_custom o) eqn:Eh; try discriminate. inv_ok H.
       rewrite E1. unfold bind. rewrite E2, E3, Eh. reflexivity.
     - eapply idem_KEnum; eauto.
@@ -187,7 +193,7 @@ Section All.
       destruct (listof_items rc cls allow interop l) as [[res h] | |] eqn:Ec; try discriminate.
       destruct (finish_list_encode _ _ _ _ _ H) as [Ep Eh]. subst pv hcv.
       rewrite encode_arr. unfold enc_list. cbn [list_items]. unfold bind.
-      rewrite (listof_items_idem cls allow interop l res h (list_items_plain jv l Hv El) Ec). exact H.
+      rewrite (listof_items_idem cls allow interop l res h Hk (list_items_plain jv l Hv El) Ec). exact H.
     - eapply idem_KAny; eauto.
   Qed.
 
@@ -211,7 +217,7 @@ Section All.
       destruct v; try discriminate. unfold bind in H.
       destruct (reserved_kw m) as [[] | |]; try discriminate.
       destruct (rc cls allow false m) as [o | |] eqn:Eo; try discriminate.
-      rewrite plain_json_obj in Hv. destruct (Hrc cls allow false m o Hv Eo) as [E1 _].
+      rewrite plain_json_obj in Hv. destruct (Hrc cls allow false m o Hk Hv Eo) as [E1 _].
       destruct (negb allow && pval_has_custom o); try discriminate. inv_ok H. rewrite E1. reflexivity.
     - (* list *)
       unfold bind in H. destruct (list_items v); try discriminate.
